@@ -3,4 +3,6 @@ pub mod dt;
 pub mod engine;
 pub mod s4run;
 pub mod textgen;
+pub mod containers;
+pub mod window;
 pub mod props;
